@@ -66,7 +66,7 @@ PROPS = {
                 pending=['regex_cost_bound (abstract cost model under "the engine honours its timeout")']),
     'C06': dict(obligations=lambda: P('SqProps.C06') + TIE_PREC + TIE_TOK + TIE_LEX + TIE_GRAM,
                 slices=['parse_tok', 'parse_rand', 'lex_chars'], monitors=['c06'],
-                pending=['complete (Reads m a ts t nxt -> parseExpr ... = ok (t, tl))', 'sound', 'reads_derives']),
+                pending=['complete at statement / program level (expressions done: complete_expr)', 'sound (parser ok -> RExpr)', 'reads_derives (levelled relation is a sub-relation of the plain CFG)']),
     'C07': dict(obligations=lambda: P('SqProps.C07') + TIE_FN + TIE_CONST,
                 slices=['prog', 'ops'], monitors=[],
                 pending=['frame_lemma (compositionality of the machine)']),
@@ -93,7 +93,7 @@ PROPS = {
                 pending=['ops_refine (induction over whole operation sequences against the abstract spec)']),
     'C15': dict(obligations=lambda: P('SqProps.C15') + TIE_LEX + TIE_GRAM + TIE_TOK,
                 slices=['layout'], monitors=['c15'],
-                pending=['layout_insensitive via C06.complete', 'lex_extra_blank over whole texts']),
+                pending=['lex_extra_blank over whole texts (token-level half now follows from C06.complete_expr: parens_read_as_inner, method_and_pipe_same_tree, trailing-comma constructors)']),
     'C16': dict(obligations=lambda: P('SqProps.C16') + TIE_TOK,
                 slices=['malformed'], monitors=['c16'],
                 pending=[]),
